@@ -120,6 +120,16 @@ def var_allowed(var_ty, var_has_default, loc_ty, loc_has_default):
     return compatible(var_ty, loc_ty)
 
 
+def strengthen(rng, t):
+    """t with `nonNull` added at random depths (a subtype of t)"""
+    def bare(u):   # u is not a nonNull
+        return ("list", strengthen(rng, u[1])) if u[0] == "list" else u
+    if t[0] == "nonNull":
+        return ("nonNull", bare(t[1]))
+    inner = bare(t)
+    return ("nonNull", inner) if rng.random() < 0.5 else inner
+
+
 def compatible(v, l):
     if l[0] == "nonNull":
         return v[0] == "nonNull" and compatible(v[1], l[1])
@@ -229,6 +239,11 @@ class DocGen:
                     default = self.literal(t, 0, allow_null=False, const=True)
                 elif t[0] != "nonNull" and r < 0.55:
                     default = self.literal(t, 0, const=True)
+                if default is None and rng.random() < 0.35:
+                    # a STRICTER variable type is allowed too: non-null added at any depth (`[Int!]!` at `[Int]!`)
+                    vt2 = strengthen(rng, vt)
+                    if var_allowed(vt2, False, t, loc_has_default):
+                        vt = vt2
                 self.vars[n] = {"type": vt, "default": default}
             self.scope_stack[-1]["vars"].add(n)
             return ("var", n)
